@@ -453,6 +453,17 @@ theorem c10_x_response_writer :
     responseWrites = ["`{\"took\":`", "`,\"errors\":false,\"items\":[`", "for i := 0; i < total; i++", "if i != 0 `,`",
       "itemCreated", "`]}`"] ∧ responseItem = "{\"create\":{\"status\":201}}" := by decide
 
+/-- a processor's drifts come from `newBulkProcessor(.., drift, futureDrift, ..)` only (`drift: drift`,
+`futureDrift: futureDrift`; no other function assigns them), `getProcessor` passes `(AllowedTimeDrift,
+FutureAllowedTimeDrift)` in that order and hands a pooled processor out unchanged - so the `(drift, fut)` of the
+model's `TimeCfg` are the configured ones for every bulk, whichever processor serves it -/
+theorem c10_x_drift_wiring :
+    driftWiring = ["newBulkProcessor(mapping, tokenizers, drift, futureDrift, index)", "drift: drift", "futureDrift: futureDrift"] ∧
+    getProcessorCalls = ["return procEface.(*processor)",
+      "return newBulkProcessor(i.config.MappingProvider.GetMapping(), i.tokenizers, i.config.AllowedTimeDrift, i.config.FutureAllowedTimeDrift, index)",
+      "newBulkProcessor(i.config.MappingProvider.GetMapping(), i.tokenizers, i.config.AllowedTimeDrift, i.config.FutureAllowedTimeDrift, index)"] :=
+  ⟨rfl, rfl⟩
+
 /-! ## Non-vacuity -/
 
 section examples
